@@ -47,7 +47,7 @@ RULE = ('directed prefix (time -1 as first read = regression of the repaired cac
         'instances) over 1-4 parameters (Dynamic and Number), time-dependent generators with 3 names x 3 seeds x 3 '
         'distributions, TimeSampledFn over them (periods 1-6, every offset), counters and seeded streams. non-trivial = at least one oracle conclusion checked and one '
         'value read from a time-dependent generator; distinct = distinct canonical case')
-COVERAGE_TARGETS = ['setTimeType', 'fractional-time', 'time_type:Fraction', 'read:td', 'read:st', 'read:sm', 'force:sm', 'inspect:sm', 'read:const', 'read:raised:StopIteration', 'read:raised:KeyError',
+COVERAGE_TARGETS = ['explicit-time_fn', 'own-clock-read', 'setTimeType', 'fractional-time', 'time_type:Fraction', 'read:td', 'read:st', 'read:sm', 'force:sm', 'inspect:sm', 'read:const', 'read:raised:StopIteration', 'read:raised:KeyError',
                     'force:raised:StopIteration',
                     'inspect:td', 'inspect:st', 'force:td', 'force:st', 'enter', 'exit', 'exit:raised:KeyError',
                     'exit:raised:IndexError', 'push', 'pop', 'pop:raised:IndexError', 'raise:raised:StopIteration',
@@ -196,7 +196,9 @@ class _Run:
             g = self.ng.TimeSampledFn(fn=cls(name=k[1], seed=k[2], time_dependent=True), period=k[3], offset=k[4])
         elif k[0] == 'td':
             cls = getattr(self.ng, _DIST.get(k[1][:1], 'UniformRandom'))
-            g = (_flaky(cls) if fail else cls)(name=k[1], seed=k[2], time_dependent=True)
+            # `tf`: the global Time object handed over explicitly (`time_fn=T`) instead of being looked up
+            extra = {'time_fn': self.tf} if src.get('tf') else {}
+            g = (_flaky(cls) if fail else cls)(name=k[1], seed=k[2], time_dependent=True, **extra)
         elif k[1] % 2 == 0:
             g = _Counter(k[1], fail)
         else:
@@ -252,7 +254,7 @@ class _Run:
                 g = obj.param.get_value_generator(pname)
                 dyn = hasattr(g, '_Dynamic_last')
                 if dyn:
-                    touched = [self.gid(g), self.kind(g)]
+                    touched = [self.gid(g), self.kind(g), getattr(g, 'time_fn', tf) is not tf]
                 call = {'read': lambda: getattr(obj, pname),
                         'inspect': lambda: obj.param.inspect_value(pname),
                         'force': lambda: obj.param.force_new_dynamic_value(pname)}[o]
@@ -486,6 +488,14 @@ def _directed():
                    CTX(ADV([9, 4]), R(0, 2), CTX(TT([-7, 2], 'int'), R(0, 0), RAISE('StopIteration'))), R(0, 0)])
     yield _mk(fr, [NEW, T([5, 2]), R(0, 0), ADV([-5, 2]), R(0, 0), TT([-5, 2], 'int'), R(0, 0), TT([-5, 2], 'frac'),
                    R(0, 0), {'op': 'push', 'i': 0}, CTX(TT(4, 'int'), R(0, 0), RAISE('KeyError')), R(0, 0)])
+    # a generator constructed with an explicit time_fn=T (the global Time object), used as a class default and read
+    # on the class and on instances (the per-instance deep copy takes a copy of T along: known finding)
+    etf = [_p('dynamic', dict(_td(), tf=True)), _p('dynamic', _td()), _p('number', dict(_td('n', 0), tf=True))]
+    yield _mk(etf, [NEW, T(1), R(0, 0), R(0, 1), R(-1, 0), T(2), R(0, 0), R(-1, 0), R(0, 2), R(-1, 2)])
+    yield _mk(etf, [T(4), R(-1, 0), NEW, R(0, 0), R(0, 1), T(5), NEW, R(1, 0), R(0, 0), R(-1, 0), I(0, 0), F(1, 0), T(4), R(0, 0)])
+    yield _mk(etf, [NEW, R(0, 0), R(0, 1), R(-1, 0), R(0, 0)])          # at the time of the copy nothing differs
+    yield _mk([_p('dynamic', _td())], [NEW, {'op': 'assign', 'tg': 0, 'p': 0, 'src': dict(_td(), tf=True)}, T(3), R(0, 0),
+                                       R(-1, 0), T(6), R(0, 0), R(-1, 0)])   # assigned, not copied: follows the clock
     # forward / backward / repeated, two instances, class-level
     yield _mk(two, [NEW, NEW] + [x for t in (0, 1, 2, 1, 0, 5, 0, -2, 3, -2, 2, 2 ** 32 + 1, 1)
                                  for x in (T(t), R(0, 0), R(1, 0), R(-1, 0), R(0, 1), R(0, 1))])
@@ -564,6 +574,8 @@ def _random_case(rng):
         if r < 0.25:
             return {'const': rng.randint(-3, 9)}
         g = _td(rng.choice(names), rng.choice(seeds)) if dynTD and r < 0.8 else _st(rng.randint(0, 3))
+        if dynTD and r < 0.8 and rng.random() < 0.06:
+            g['tf'] = True
         if dynTD and r < 0.8 and rng.random() < 0.2:
             period = rng.randint(1, 6)
             return {'fresh': ['sm', g['fresh'][1], g['fresh'][2], period, rng.randrange(period)]}
@@ -732,8 +744,13 @@ def tags(case, impl):
     n = sum(1 for _ in _flat(case['ops']))
     t.append(f'len={min(n, 30) // 5 * 5}+')
     if isinstance(impl, dict) and 'events' in impl:
+        import json as _json
+        if '"tf": true' in _json.dumps(case):
+            t.append('explicit-time_fn')
         times = set()
         for e in impl['events']:
+            if e['touched'] and len(e['touched']) > 2 and e['touched'][2]:
+                t.append('own-clock-read')
             k = e['tag'].split(':')[0]
             t.append(k + (':raised:' + e['res']['raised'] if 'raised' in e['res'] else ''))
             times.add(e['clock'][0][0])
@@ -775,5 +792,20 @@ def shrink(case):
 
 
 def classify(case, impl, fail):
-    """no known findings: the cache-marker collision at time -1 is repaired in /repo (f16aa09)"""
+    """one known finding: a generator constructed with an explicit `time_fn=` and deep-copied into an instance
+    follows a stopped copy of the clock.  Narrow: the oracle names an `own-clock` read, and in the observed trace
+    that very event is a read/force through a generator whose `time_fn` is not the global Time object, and the
+    case declares a generator with `tf`."""
+    import json
+    import re
+    if fail.get('kind') != 'counterexample' or not isinstance(impl, dict) or 'events' not in impl:
+        return None
+    m = re.match(r'own-clock: event (\d+) \((read|force):', str(fail.get('why')))
+    if not m or '"tf": true' not in json.dumps(case):
+        return None
+    i = int(m.group(1))
+    if i < len(impl['events']):
+        e = impl['events'][i]
+        if e['touched'] and len(e['touched']) > 2 and e['touched'][2] is True and e['touched'][1][0] == 'td':
+            return 'explicit-time-fn-deepcopied-per-instance'
     return None
